@@ -489,6 +489,11 @@ func (fc *FnCtx) writeKey(st *State, key string, ref, v *smt.Term) {
 	if key == "Error.err" && !fc.inAlloc {
 		fc.errStore(ref, v, fc.pos(0))
 	}
+	if hasBoolStructure(v, 6) {
+		// heap maps are macros and end up inside quantifier patterns (select H r): a stored
+		// value with ite / not inside would make the pattern illegal, so it gets a name
+		v = fc.S.Name("hval", v)
+	}
 	if k, ok := freshRefKey(v); ok && v.Sort == smt.Int {
 		fc.escaped[k] = true
 	}
@@ -1513,4 +1518,22 @@ func immutableFreeVar(fv *ssa.FreeVar) bool {
 		}
 	}
 	return ok
+}
+
+// hasBoolStructure: does t contain (up to the given depth) an operator that is
+// not allowed inside a quantifier pattern?
+func hasBoolStructure(t *smt.Term, depth int) bool {
+	if t == nil || depth < 0 {
+		return false
+	}
+	switch t.Op {
+	case "ite", "and", "or", "not", "=>", "=", "<", "<=", ">", ">=", "distinct":
+		return true
+	}
+	for _, a := range t.Args {
+		if hasBoolStructure(a, depth-1) {
+			return true
+		}
+	}
+	return false
 }
